@@ -27,10 +27,12 @@ TIERS = {
 }
 
 RULE = ("One run = one seeded history of 10..max_ops operations (new, add item [also negative indices], copy, sort, add-empty, remove, "
-        "concatenate, combine, readers; plus failing operations: out-of-range bin index, valueof raising) over a pool of <= 8 live "
+        "concatenate, combine [also negative indices], readers; python and numpy integer indices; plus failing operations: out-of-range bin index, "
+        "valueof raising an ordinary error / KeyError / MemoryError / KeyboardInterrupt) over a pool of <= 8 live "
         "bins-arrays of one manager, respecting the hand-over discipline (an array passed to add-empty/remove/concatenate is retired). "
         "After EVERY operation every live array is compared with a list-of-lists reference model (bin count, each sum == total value of "
-        "the model bin, contents per bin as a multiset, numitems), and arguments documented as unmodified are compared before/after. "
+        "the model bin, contents per bin as a multiset, numitems), arguments documented as unmodified are compared before/after, and a legal "
+        "operation that raises is a violation. Item values: names with integer or dyadic values, integers, dyadic fractions, integers beyond float32 precision. "
         "evaluations = operations executed and judged. A history is non-trivial when it mutates (add/sort/combine) an array that has a "
         "live relative (its copy/original, or an array derived from it by add-empty/remove/concatenate) - i.e. when aliasing could matter; "
         "distinct = distinct plans (hash of the whole history) among those.")
